@@ -42,6 +42,17 @@ def apply_reform(params, group, eps):
     walk(params[group], ())
 
 
+def plus_one(f):
+    """A user function with the signature and metadata of f (functools.wraps) returning f(...) + 1."""
+    import functools
+
+    @functools.wraps(f)
+    def user_function(*args, **kwargs):
+        return f(*args, **kwargs) + 1.0
+
+    return user_function
+
+
 def build_data(plain, as_dict, variant):
     from vf import popgen
 
@@ -74,6 +85,8 @@ def call(desc, env=None):
         params, functions = set_up_policy_environment(desc["date"])
         for g, eps in desc["reforms"]:
             apply_reform(params, g, eps)
+        for name in desc.get("wraps", []):
+            functions[name] = plus_one(functions[name])
     else:
         params, functions = env
     data = build_data(desc["data"], desc["as_dict"], desc["variant"])
